@@ -567,9 +567,16 @@ class Run:
                 try:
                     if st.get("rfj_grid"):
                         ref.set_timegrid(tw.grid(st["rfj_grid"]))   # documented: the grid given to run_from_json is the one used
-                    opr = ref.setup_optim_problem(tw.prices(p))
+                    pr_ = tw.prices(p)
+                    opr = ref.setup_optim_problem(pr_)
                     rr = opr.optimize()
-                    v_ref = None if isinstance(rr, str) else float(rr.value)
+                    if isinstance(rr, str):
+                        v_ref = None
+                    else:
+                        # the same steps run_from_json takes, incl. the extraction of the output tables (which has
+                        # limitations of its own, e.g. a portfolio without any nodal restriction - soak seed 405)
+                        eao.io.extract_output(ref, opr, rr, pr_)
+                        v_ref = float(rr.value)
                 except Exception as e3:
                     v_ref = ("raise", type(e3).__name__)
                 v_new = None
